@@ -107,6 +107,7 @@ type Monitor struct {
 	ctlEnded         map[string]int64 // client -> time its TCP control connection ended (server view)
 	orphanDeletes    map[string][]int64 // allocation-deleted events seen before the Allocate response
 	leakReported     map[string]bool
+	Refresh0Err      map[string]int // client -> error code of its last Refresh(0), if it was not followed by a success
 	relayConns       []*relayConn
 	dataConns        map[uint32]*TCPConn
 	unboundReported  map[uint32]bool
@@ -131,7 +132,7 @@ func NewMonitor(k *Kernel, n *Net, p *Plan) *Monitor {
 	m := &Monitor{K: k, Net: n, P: p, M: NewModel(perm, ch, life), users: map[string]string{}, denyPeer: map[string]bool{},
 		denyClient: map[string]bool{}, nonces: map[string]*nonceInfo{}, intents: map[string]*Intent{}, reqs: map[string][]*mReq{},
 		evCount: map[string]int{}, states: map[string]struct{}{}, srvWriteFailed: map[string]bool{}, MustMax: 1400,
-		tcpCtl: map[*TCPConn]*ctlStream{}, relayErr: map[string]int64{}, relayWriteErr: map[string]bool{}, orphanDeletes: map[string][]int64{}, leakReported: map[string]bool{}, dataConns: map[uint32]*TCPConn{}, unboundReported: map[uint32]bool{}, readCalls: map[string]int{}, ctlEnded: map[string]int64{}}
+		tcpCtl: map[*TCPConn]*ctlStream{}, relayErr: map[string]int64{}, relayWriteErr: map[string]bool{}, orphanDeletes: map[string][]int64{}, leakReported: map[string]bool{}, Refresh0Err: map[string]int{}, dataConns: map[uint32]*TCPConn{}, unboundReported: map[uint32]bool{}, readCalls: map[string]int{}, ctlEnded: map[string]int64{}}
 	m.InboundMTU = p.Cfg.InboundMTU
 	if m.InboundMTU == 0 {
 		m.InboundMTU = 1600
@@ -629,6 +630,13 @@ func (m *Monitor) respAllocate(r *mReq, msg *stun.Message, ok bool, code int, I 
 
 func (m *Monitor) respRefresh(r *mReq, msg *stun.Message, ok bool, code int, I ivl) {
 	poss, _ := m.ownerAllocs(r, I)
+	if v, has := getU32(r.Msg, attrLifetime); has && v == 0 {
+		if ok {
+			delete(m.Refresh0Err, r.Client)
+		} else {
+			m.Refresh0Err[r.Client] = code
+		}
+	}
 	if !ok {
 		return
 	}
